@@ -55,6 +55,33 @@ def variants(base):
                 for b in net["bits"]:
                     b.reverse()  # pins listed on the wire in another order
     out.append(("bus-base-5-pins-reordered", v))
+    # names that are not legal EDIF identifiers because of one character, at each position
+    for tag, f in (("illegal-last-char", lambda n: n + "$"), ("illegal-first-char", lambda n: "$" + n),
+                   ("illegal-middle-char", lambda n: n[:1] + "$" + n[1:])):
+        v = copy.deepcopy(base)
+        ren = {}
+        for lib in v["libs"]:
+            ren[lib["name"]] = f(lib["name"])
+        for lib in v["libs"]:
+            for d in lib["defs"]:
+                for x in d.get("insts", ()):
+                    x["ref"] = [ren[x["ref"][0]], f(x["ref"][1])]
+                    x["name"] = f(x["name"])
+                for p in d["ports"]:
+                    p["name"] = f(p["name"])
+                    p.pop("display", None)
+                for net in d.get("nets", ()):
+                    net["name"] = f(net["name"])
+                    for b in net["bits"]:
+                        for e in b:
+                            e[1] = f(e[1])
+                            if e[0] == "I":
+                                e[2] = f(e[2])
+                d["name"] = f(d["name"])
+            lib["name"] = ren[lib["name"]]
+        if v.get("top"):
+            v["top"] = [ren[v["top"][0]], f(v["top"][1])]
+        out.append((tag, v))
     return out
 
 
